@@ -83,6 +83,29 @@ let show_sout = function
   | RNone -> "N" | RVal v -> "V" ^ string_of_int (int_of_n v) | RBool b -> if b then "B1" else "B0"
   | RId n -> "I" ^ string_of_int (int_of_nat n) | RAttrErr -> "A" | RRecursion -> "R"
 
+(* expressions *)
+let rec show_expr = function
+  | EIdent (n, None) -> "(id " ^ field_of_ustr n ^ ")"
+  | EIdent (n, Some args) -> "(call " ^ field_of_ustr n ^ String.concat "" (List.map (fun a -> " " ^ show_expr a) args) ^ ")"
+  | EConst v -> "(const " ^ field_of_ustr v ^ ")"
+  | EBin (l, op, r) -> "(bin " ^ show_expr l ^ " " ^ field_of_ustr op ^ " " ^ show_expr r ^ ")"
+  | EUn (op, e) -> "(un " ^ field_of_ustr op ^ " " ^ show_expr e ^ ")"
+  | EParen e -> "(paren " ^ show_expr e ^ ")"
+let kind_name = function
+  | REAL -> "REAL" | INTEGER -> "INTEGER" | DQUOTE -> "DQUOTE" | SQUOTE -> "SQUOTE" | LPAREN -> "LPAREN" | RPAREN -> "RPAREN"
+  | LCURLY -> "LCURLY" | RCURLY -> "RCURLY" | LBRACKET -> "LBRACKET" | RBRACKET -> "RBRACKET" | STAR -> "STAR"
+  | EQUALS -> "EQUALS" | REF -> "REF" | PLUS -> "PLUS" | MINUS -> "MINUS" | SLASH -> "SLASH" | COMMA -> "COMMA"
+  | SEMICOLON -> "SEMICOLON" | LT -> "LT" | GT -> "GT" | TILDE -> "TILDE" | NAMESPACE -> "NAMESPACE" | COLON -> "COLON"
+  | VARARG -> "VARARG" | ID -> "ID" | OTHER -> "OTHER" | TYPE_SPECIFIER -> "TYPE_SPECIFIER" | TYPE_QUALIFIER -> "TYPE_QUALIFIER"
+  | STORAGE_CLASS -> "STORAGE_CLASS" | KW_CLASS -> "CLASS" | KW_ENUM -> "ENUM" | KW_NAMESPACE -> "NAMESPACE"
+  | KW_STRUCT -> "STRUCT" | KW_TEMPLATE -> "TEMPLATE" | KW_TYPENAME -> "TYPENAME" | KW_PUBLIC -> "PUBLIC"
+  | KW_PRIVATE -> "PRIVATE" | KW_PROTECTED -> "PROTECTED" | EOF -> "EOF"
+let sym_of_field s = if s = "" then [] else
+  List.map (fun it -> match String.split_on_char '=' it with
+    | [k; v] -> (ustr_of_field k, ustr_of_field v) | _ -> failwith "sym") (String.split_on_char ',' s)
+let show_members ms = String.concat ";" (List.map (fun (n, v) ->
+  field_of_ustr n ^ "=" ^ (match v with None -> "-" | Some e -> show_expr e)) ms)
+
 let handle fields =
   match fields with
   | ["wc"; ll; ind; sp; ct; line] ->
@@ -121,6 +144,22 @@ let handle fields =
   | ["aa"; src; nsrc; len] ->
       let (o, ok) = str_array_alloc (ustr_of_field src) (nat_of_int (int_of_string nsrc)) (nat_of_int (int_of_string len)) in
       (if ok then "1|" else "0|") ^ lines_out o
+  | ["tok"; s] ->
+      String.concat ";" (List.map (fun t -> kind_name t.tk ^ ":" ^ field_of_ustr t.tv) (tokenize (ustr_of_field s)))
+  | ["expr"; s] -> show_result show_expr (check_expr (ustr_of_field s))
+  | ["printexpr"; s] -> show_result (fun e -> field_of_ustr (print_expr e)) (check_expr (ustr_of_field s))
+  | ["enum"; s] ->
+      show_result (fun e -> field_of_ustr e.en_name ^ "|" ^ (match e.en_scope with None -> "-" | Some x -> field_of_ustr x)
+                            ^ "|" ^ show_members e.en_members) (parse_enum (ustr_of_field s))
+  | ["derive"; s; csym; fsym] ->
+      show_result (fun e ->
+          String.concat ";" (List.map (fun m -> field_of_ustr m.mo_name ^ "=" ^
+              (match m.mo_cvalue with None -> "-" | Some c -> "C" ^ field_of_ustr c) ^ "=" ^ field_of_ustr m.mo_fvalue)
+            (derive (sym_of_field csym) (sym_of_field fsym) e.en_members))
+          ^ "|" ^ (match cxx_values e.en_members with
+                   | None -> "novalue"
+                   | Some vs -> String.concat "," (List.map (fun (_, z) -> string_of_int (int_of_z z)) vs)))
+        (parse_enum (ustr_of_field s))
   | ["lstrip"; s] -> field_of_ustr (lstrip (ustr_of_field s))
   | ["rstrip"; s] -> field_of_ustr (rstrip (ustr_of_field s))
   | _ -> "BADCMD"
